@@ -1,5 +1,1256 @@
-//! C16 - monitor not built yet.
+//! C16 - No accepted KIP mutation can touch engine-owned or immutable state.
+//!
+//! (1) A finite matrix clause family x target kind x assignment block x field name x spelling,
+//! rendered to text, enumerated completely and parsed; (2) every accepted tree is walked by an
+//! independent visitor (`v_kip::walker`) that must find nothing; (3) every accepted tree is
+//! serialised, mutated at the JSON level (protected key, duplicate handle, dropped binding, BELIEF
+//! selector, changed target kind, missing confirmation, ...) and fed to `validate_command`: what
+//! that accepts must satisfy the walker too; (4) the ASSERT shorthand is compared with a
+//! harness-side expansion; (5) generated multi-clause plans with handle graphs; (6) a sanity set of
+//! hand-made bad trees proves that every walker rule can fire.
+
+use anda_kip::{
+    Assignments, BoundValue, Command, ElementRef, EnsureProposition, KipValue, KmlStatement, MutationClause, MutationValue,
+    PROTECTED_FIELDS, Scalar, SymbolRef, UpdateAction, parse_kip, parse_kml, validate_command,
+};
+use std::collections::{BTreeMap, BTreeSet};
+use v_kip::generate::{self, Gen};
+use v_kip::walker::{self, ASSERTION_PAYLOAD, ENGINE_OWNED, EVIDENCE_PAYLOAD, Finding, Measured, PROPOSITION_PAYLOAD};
+use vcore::{Rng, Run, Stats, Value, fnv_str, json};
+
+// ---------------------------------------------------------------------------------------------
+// the matrix
+
+#[derive(Clone, Debug)]
+struct Cell {
+    family: &'static str,
+    block: &'static str,
+    kind: &'static str,
+    name: &'static str,
+    spelling: &'static str,
+    wrap: &'static str,
+    text: String,
+}
+
+const ORDINARY: &[&str] = &["name", "note", "x"];
+/// names the parser additionally treats as Assertion payload aliases (enumerated, not judged)
+const ALIASES: &[&str] = &["proposition_id", "evidence_refs"];
+
+fn all_names() -> Vec<&'static str> {
+    let mut v: Vec<&'static str> = vec![];
+    v.extend(ENGINE_OWNED);
+    v.extend(PROPOSITION_PAYLOAD);
+    v.extend(ASSERTION_PAYLOAD);
+    v.extend(EVIDENCE_PAYLOAD);
+    v.extend(ALIASES);
+    v.extend(ORDINARY);
+    v
+}
+
+fn capitalized(n: &str) -> String {
+    // first alphabetic character upper-cased: `_System`, `Governance`
+    let mut done = false;
+    n.chars()
+        .map(|c| {
+            if !done && c.is_ascii_alphabetic() {
+                done = true;
+                c.to_ascii_uppercase()
+            } else {
+                c
+            }
+        })
+        .collect()
+}
+
+fn escaped(n: &str) -> String {
+    // JSON \u escape of the first character: decodes to the same key
+    let mut c = n.chars();
+    let first = c.next().unwrap_or('x');
+    format!("\\u{:04x}{}", first as u32, c.as_str())
+}
+
+/// (spelling name, body of an assignment block `{...}`), `t` = target variable when there is one.
+fn assignment_spellings(n: &str, t: Option<&str>) -> Vec<(&'static str, String)> {
+    let mut v = vec![
+        ("bare-first", format!("{{ {n}: 1, a: 2, b: 3 }}")),
+        ("bare-middle", format!("{{ a: 2, {n}: 1, b: 3 }}")),
+        ("bare-last", format!("{{ a: 2, b: 3, {n}: 1 }}")),
+        ("bare-trailing-comma", format!("{{ {n}: 1, }}")),
+        ("bare-compact", format!("{{{n}:1}}")),
+        ("quoted", format!("{{ \"{n}\": 1 }}")),
+        ("quoted-last", format!("{{ a: 2, \"{n}\": 1 }}")),
+        ("quoted-unicode-escape", format!("{{ \"{}\": 1 }}", escaped(n))),
+        ("upper-case", format!("{{ {}: 1 }}", n.to_ascii_uppercase())),
+        ("capitalized", format!("{{ {}: 1 }}", capitalized(n))),
+        ("whitespace-and-comments", format!("{{ // c \" {{\n\t {n} // ( [\n : // c\n 1 // c\n }}")),
+        ("quoted-padded", format!("{{ \" {n}\": 1, \"{n} \": 2 }}")),
+        ("nested-object-key", format!("{{ a: {{ {n}: 1 }} }}")),
+        ("nested-array-object-key", format!("{{ a: [ {{ \"{n}\": :p }} ] }}")),
+        ("quoted-dotted-prefix", format!("{{ \"{n}.version\": 1 }}")),
+        ("quoted-dotted-suffix", format!("{{ \"attributes.{n}\": 1 }}")),
+        ("value-param", format!("{{ {n}: :p }}")),
+        ("value-expression", format!("{{ {n}: ADD(1, 2) }}")),
+        ("value-object", format!("{{ {n}: {{ version: 9 }} }}")),
+        ("value-null", format!("{{ {n}: null }}")),
+        ("duplicate-key", format!("{{ {n}: 1, {n}: 2 }}")),
+        ("as-string-value", format!("{{ a: \"{n}\" }}")),
+    ];
+    if let Some(t) = t {
+        v.push(("as-expression-operand", format!("{{ a: ADD(?{t}.{n}, 1) }}")));
+        v.push(("as-own-field-read", format!("{{ a: ?{t}.{n}.version }}")));
+        v.push(("as-key-step-read", format!("{{ a: COALESCE(?{t}[\"{n}\"], 0) }}")));
+    }
+    v
+}
+
+fn unset_spellings(n: &str) -> Vec<(&'static str, String)> {
+    vec![
+        ("bare-first", format!("{{ {n}, a, b }}")),
+        ("bare-middle", format!("{{ a, {n}, b }}")),
+        ("bare-last", format!("{{ a, b, {n} }}")),
+        ("bare-trailing-comma", format!("{{ {n}, }}")),
+        ("bare-compact", format!("{{{n}}}")),
+        ("quoted", format!("{{ \"{n}\" }}")),
+        ("quoted-unicode-escape", format!("{{ \"{}\" }}", escaped(n))),
+        ("upper-case", format!("{{ {} }}", n.to_ascii_uppercase())),
+        ("capitalized", format!("{{ {} }}", capitalized(n))),
+        ("whitespace-and-comments", format!("{{ // c \" {{\n\t {n} // ( [\n }}")),
+        ("quoted-padded", format!("{{ \" {n}\", \"{n} \" }}")),
+        ("quoted-dotted-prefix", format!("{{ \"{n}.version\" }}")),
+        ("duplicate-key", format!("{{ {n}, {n} }}")),
+    ]
+}
+
+/// Target kinds: (name, target text, WHERE text or "").
+fn target_kinds() -> Vec<(&'static str, &'static str, &'static str)> {
+    vec![
+        ("direct-param", ":id", ""),
+        ("direct-string", "\"E-1\"", ""),
+        ("direct-param-with-guard-where", ":id", "WHERE { ?g ASSERTION {stance: \"support\"} }"),
+        ("concept-bare", "?t", "WHERE { ?t {type: \"T\"} }"),
+        ("concept-keyword", "?t", "WHERE { ?t CONCEPT {type: \"T\"} }"),
+        ("proposition-keyword", "?t", "WHERE { ?t PROPOSITION (?s, \"p\", ?o) }"),
+        ("proposition-bare", "?t", "WHERE { ?t (?s, \"p\", ?o) }"),
+        ("proposition-id", "?t", "WHERE { ?t (id: :pid) }"),
+        ("assertion", "?t", "WHERE { ?t ASSERTION {stance: \"support\"} }"),
+        ("assertion-lower-case-keyword", "?t", "WHERE { ?t assertion {} }"),
+        ("evidence", "?t", "WHERE { ?t EVIDENCE {evidence_class: \"tool_result\"} }"),
+        ("activity", "?t", "WHERE { ?t ACTIVITY {status: \"running\"} }"),
+        ("untyped-tuple-object", "?t", "WHERE { ?e {type: \"T\"} (?e, \"p\", ?t) }"),
+        ("untyped-structural-object", "?t", "WHERE { STRUCTURAL (?e, \"has_step\", ?t) }"),
+        ("assertion-after-filter", "?t", "WHERE { FILTER(?t.confidence > 0) ?t ASSERTION {} }"),
+        ("assertion-in-optional-only", "?t", "WHERE { ?x {type: \"T\"} OPTIONAL { ?t ASSERTION {} } }"),
+        ("assertion-in-not-only", "?t", "WHERE { ?x {type: \"T\"} NOT { ?t ASSERTION {} } }"),
+        ("assertion-in-union-only", "?t", "WHERE { UNION { ?t ASSERTION {} } }"),
+        ("assertion-and-evidence-in-unions", "?t", "WHERE { UNION { ?t ASSERTION {} } UNION { ?t EVIDENCE {} } }"),
+        ("concept-then-union-assertion", "?t", "WHERE { ?t {type: \"T\"} UNION { ?t ASSERTION {} } }"),
+        ("concept-then-union-evidence", "?t", "WHERE { ?t {type: \"T\"} UNION { ?t EVIDENCE {} } }"),
+        ("concept-then-union-proposition", "?t", "WHERE { ?t {type: \"T\"} UNION { ?t (?s, \"p\", ?o) } }"),
+        ("concept-then-union-activity", "?t", "WHERE { ?t {type: \"T\"} UNION { ?t ACTIVITY {} } }"),
+        ("union-assertion-then-concept", "?t", "WHERE { UNION { ?t ASSERTION {} } ?t {type: \"T\"} }"),
+        ("concept-and-assertion-both-required", "?t", "WHERE { ?t {type: \"T\"} ?t ASSERTION {} }"),
+        ("concept-then-optional-assertion", "?t", "WHERE { ?t {type: \"T\"} OPTIONAL { ?t ASSERTION {} } }"),
+        ("belief-selector", "?t", "WHERE { ?t BELIEF (:a, \"p\", :b) }"),
+        ("belief-slot-selector", "?t", "WHERE { ?x {type: \"T\"} ?t BELIEF SLOT (?x, \"p\") }"),
+        ("belief-inside-not", "?t", "WHERE { ?t {type: \"T\"} NOT { ?b BELIEF (?t, \"p\", :b) } }"),
+    ]
+}
+
+fn wraps(clause: &str) -> Vec<(&'static str, String)> {
+    vec![
+        ("standalone", clause.to_string()),
+        ("in-mutate", format!("MUTATE {{ {clause} }}")),
+        ("in-mutate-after-create", format!("MUTATE {{\n CREATE CONCEPT ?z {{ TYPE \"T\" }}\n {clause}\n}}")),
+    ]
+}
+
+fn build_matrix() -> Vec<Cell> {
+    let mut cells = vec![];
+    let names = all_names();
+    let mut push = |family: &'static str, block: &'static str, kind: &'static str, name: &'static str, spelling: &'static str, clause: String| {
+        for (wrap, text) in wraps(&clause) {
+            cells.push(Cell { family, block, kind, name, spelling, wrap, text });
+        }
+    };
+    let kinds = target_kinds();
+    for name in &names {
+        let name: &'static str = name;
+        // ---- creating families (no target kind)
+        for (sp, body) in assignment_spellings(name, None) {
+            for (block, pre) in [("SET FIELDS", "SET FIELDS"), ("SET ATTRIBUTES", "SET ATTRIBUTES"), ("SET FACET", "SET FACET \"F\"")] {
+                push("CREATE CONCEPT", block, "-", name, sp, format!("CREATE CONCEPT ?c {{ TYPE \"T\" {pre} {body} }}"));
+                push("UPSERT CONCEPT", block, "-", name, sp, format!("UPSERT CONCEPT ?c {{ MATCH {{ type: \"T\", key: \"k\" }} {pre} {body} }}"));
+            }
+            push("CREATE CONCEPT", "SET STRUCTURAL options", "-", name, sp, format!("CREATE CONCEPT ?c {{ TYPE \"T\" SET STRUCTURAL {{ (\"has_step\", :s) {body} }} }}"));
+            push("UPSERT CONCEPT", "MATCH", "-", name, sp, format!("UPSERT CONCEPT ?c {{ MATCH {} SET FIELDS {{ name: \"n\" }} }}", body.replacen('{', "{ key: \"k\", ", 1).replace("ADD(1, 2)", ":p")));
+            for (fam, head) in [("CREATE EVIDENCE", "CREATE EVIDENCE ?r"), ("CREATE ASSERTION", "CREATE ASSERTION ?r"), ("CREATE ACTIVITY", "CREATE ACTIVITY ?r")] {
+                push(fam, "SET FIELDS", "-", name, sp, format!("{head} {{ SET FIELDS {body} }}"));
+                push(fam, "SET FACET", "-", name, sp, format!("{head} {{ SET FACET \"F\" {body} }}"));
+                push(fam, "SET STRUCTURAL options", "-", name, sp, format!("{head} {{ SET STRUCTURAL {{ (\"evidence\", :e) {body} }} }}"));
+            }
+            push("TRANSITION ACTIVITY", "SET FIELDS", "-", name, sp, format!("TRANSITION ACTIVITY :act TO \"completed\" SET FIELDS {body}"));
+            push("TRANSITION ACTIVITY", "SET STRUCTURAL options", "-", name, sp, format!("TRANSITION ACTIVITY :act TO \"completed\" SET STRUCTURAL {{ (\"outputs\", :o) {body} }}"));
+            // ASSERT member block: the written member plus the two required ones
+            let members = body.replacen('{', "{ by: :me, mode: \"stated\", ", 1);
+            push("ASSERT", "members", "-", name, sp, format!("ASSERT (:a, \"p\", :b) {members}"));
+        }
+        for (sp, body) in unset_spellings(name) {
+            push("UPSERT CONCEPT", "UNSET ATTRIBUTES", "-", name, sp, format!("UPSERT CONCEPT ?c {{ MATCH {{ key: \"k\" }} UNSET ATTRIBUTES {body} }}"));
+            push("UPSERT CONCEPT", "UNSET FACET", "-", name, sp, format!("UPSERT CONCEPT ?c {{ MATCH {{ key: \"k\" }} UNSET FACET \"F\" {body} }}"));
+        }
+        // ---- selecting families x target kind
+        for (kind, target, wh) in &kinds {
+            let tv = if *target == "?t" { Some("t") } else { None };
+            for (sp, body) in assignment_spellings(name, tv) {
+                for (block, pre) in [("SET FIELDS", "SET FIELDS"), ("SET ATTRIBUTES", "SET ATTRIBUTES"), ("SET FACET", "SET FACET \"F\"")] {
+                    push("UPDATE", block, kind, name, sp, format!("UPDATE {target} {pre} {body} {wh}"));
+                }
+                // the retention block takes no update expression reading other state; keep the same spellings
+                push("SET RETENTION", "retention block", kind, name, sp, format!("SET RETENTION {target} {body} {wh}"));
+            }
+            for (sp, body) in unset_spellings(name) {
+                push("UPDATE", "UNSET ATTRIBUTES", kind, name, sp, format!("UPDATE {target} UNSET ATTRIBUTES {body} {wh}"));
+                push("UPDATE", "UNSET FACET", kind, name, sp, format!("UPDATE {target} UNSET FACET \"F\" {body} {wh}"));
+            }
+        }
+    }
+    // ---- structural mutation and the statements without assignment blocks x target kind
+    for (kind, target, wh) in &kinds {
+        push("UPDATE", "SET STRUCTURAL", kind, "-", "-", format!("UPDATE {target} SET STRUCTURAL {{ (\"has_step\", :s) {{index: 0}} }} {wh}"));
+        push("UPDATE", "UNSET STRUCTURAL", kind, "-", "-", format!("UPDATE {target} UNSET STRUCTURAL {{ (\"has_step\", :s) }} {wh}"));
+        push("UPDATE", "SET FACET + SET STRUCTURAL", kind, "-", "-", format!("UPDATE {target} SET FACET \"F\" {{ salience: 0.5 }} SET STRUCTURAL {{ (\"evidence\", :e) }} {wh}"));
+        push("ARCHIVE", "-", kind, "-", "-", format!("ARCHIVE {target} {wh}"));
+        push("TOMBSTONE", "-", kind, "-", "-", format!("TOMBSTONE {target} {wh} LIMIT 3"));
+        push("RETRACT ASSERTION", "-", kind, "-", "-", format!("RETRACT ASSERTION {target} {wh}"));
+        push("MERGE CONCEPT", "-", kind, "-", "-", format!("MERGE CONCEPT {target} INTO :into {wh}"));
+        for (sp, confirm) in [
+            ("confirm-exact", "CONFIRM \"PURGE\""),
+            ("confirm-lower-case", "CONFIRM \"purge\""),
+            ("confirm-padded", "CONFIRM \"PURGE \""),
+            ("confirm-escaped", "CONFIRM \"\\u0050URGE\""),
+            ("confirm-missing", ""),
+            ("confirm-bare-word", "CONFIRM PURGE"),
+            ("confirm-param", "CONFIRM :confirm"),
+            ("confirm-keyword-lower-case", "confirm \"PURGE\""),
+            ("confirm-empty", "CONFIRM \"\""),
+        ] {
+            push("PURGE", "CONFIRM", kind, "-", sp, format!("PURGE {target} {wh} {confirm}"));
+        }
+    }
+    // ---- EXPORT selections
+    for (kind, target, wh) in &kinds {
+        if !wh.is_empty() {
+            push("EXPORT CAPSULE", "WHERE", kind, "-", "-", format!("EXPORT CAPSULE {target} {wh}"));
+        }
+    }
+    // ---- identity: creating from a bare id, UPSERT selectors
+    for (sp, tuple) in [
+        ("tuple", "(:a, \"p\", :b)"),
+        ("id-param", "(id: :pid)"),
+        ("id-string", "(id: \"P-1\")"),
+        ("id-spaced", "( id : \"P-1\" )"),
+        ("id-commented", "( // c\n id // c\n : \"P-1\" )"),
+        ("id-upper-case", "(ID: \"P-1\")"),
+        ("id-quoted-key", "(\"id\": \"P-1\")"),
+        ("nested-id-object", "(:a, \"p\", (id: :pid))"),
+        ("nested-id-subject", "((id: :pid), \"p\", :b)"),
+        ("variable-predicate", "(:a, ?p, :b)"),
+        ("literal-subject", "(\"lit\", \"p\", :b)"),
+        ("path-predicate", "(:a, \"p\"{1,2}, :b)"),
+        ("alternation-predicate", "(:a, \"p\" | \"q\", :b)"),
+    ] {
+        push("ENSURE PROPOSITION", "tuple", "-", "-", sp, format!("ENSURE PROPOSITION ?p {tuple}"));
+        push("ENSURE PROPOSITION", "tuple", "-", "-", sp, format!("ENSURE PROPOSITION {tuple} EXPECT VERSION 0"));
+        push("ASSERT", "tuple", "-", "-", sp, format!("ASSERT {tuple} {{ by: :me, mode: \"stated\" }}"));
+        push("ASSERT", "tuple", "-", "-", sp, format!("ASSERT ?a {tuple} {{ by: :me, mode: \"stated\" }} SUPERSEDING :old"));
+    }
+    for (sp, m) in [
+        ("key-literal", "{ key: \"k\" }"),
+        ("key-param", "{ key: :k }"),
+        ("id-literal", "{ id: \"C-1\" }"),
+        ("id-param", "{ id: :id }"),
+        ("type-and-key", "{ type: \"T\", key: \"k\" }"),
+        ("name-and-key", "{ name: \"N\", key: \"k\" }"),
+        ("name-only", "{ name: \"N\" }"),
+        ("type-and-name", "{ type: \"T\", name: \"N\" }"),
+        ("type-only", "{ type: \"T\" }"),
+        ("empty", "{ }"),
+        ("id-variable", "{ id: ?x }"),
+        ("key-variable", "{ key: ?x }"),
+        ("key-array", "{ key: [\"k\"] }"),
+        ("key-object", "{ key: { value: \"k\" } }"),
+        ("key-upper-case", "{ KEY: \"k\" }"),
+        ("id-capitalized", "{ Id: \"C-1\" }"),
+        ("quoted-key", "{ \"key\": \"k\" }"),
+        ("quoted-padded-key", "{ \"key \": \"k\" }"),
+        ("nested-key", "{ attributes: { key: \"k\" } }"),
+        ("key-null", "{ key: null }"),
+        ("name-first-then-id", "{ name: \"N\", id: :id }"),
+    ] {
+        push("UPSERT CONCEPT", "MATCH identity", "-", "-", sp, format!("UPSERT CONCEPT ?c {{ MATCH {m} SET FIELDS {{ name: \"n\" }} }}"));
+    }
+    push("UPSERT CONCEPT", "MATCH identity", "-", "-", "no-match", "UPSERT CONCEPT ?c { SET FIELDS { name: \"n\" } }".to_string());
+    // ---- handles
+    for (sp, plan) in [
+        ("declared-twice-same-family", "CREATE CONCEPT ?h { TYPE \"A\" } CREATE CONCEPT ?h { TYPE \"B\" }"),
+        ("declared-twice-across-families", "CREATE CONCEPT ?h { TYPE \"A\" } CREATE EVIDENCE ?h { }"),
+        ("declared-twice-upsert", "UPSERT CONCEPT ?h { MATCH {key: \"k\"} } CREATE ACTIVITY ?h { }"),
+        ("declared-twice-ensure", "ENSURE PROPOSITION ?h (:a, \"p\", :b) CREATE CONCEPT ?h { TYPE \"A\" }"),
+        ("declared-twice-assert", "ASSERT ?h (:a, \"p\", :b) { by: :me, mode: \"stated\" } CREATE ASSERTION ?h { }"),
+        ("declared-twice-two-asserts", "ASSERT ?h (:a, \"p\", :b) { by: :me, mode: \"stated\" } ASSERT ?h (:a, \"q\", :b) { by: :me, mode: \"stated\" }"),
+        ("forward-reference", "CREATE ASSERTION ?a { SET STRUCTURAL { (\"evidence\", ?e) } } CREATE EVIDENCE ?e { }"),
+        ("unbound-in-edge", "CREATE ASSERTION ?a { SET STRUCTURAL { (\"evidence\", ?ghost) } }"),
+        ("unbound-in-edge-options", "CREATE CONCEPT ?a { TYPE \"T\" SET STRUCTURAL { (\"has_step\", :s) {after: ?ghost} } }"),
+        ("unbound-in-field", "CREATE ASSERTION ?a { SET FIELDS { proposition: ?ghost } }"),
+        ("unbound-in-nested-array", "CREATE CONCEPT ?a { TYPE \"T\" SET ATTRIBUTES { refs: [ :x, [ ?ghost ] ] } }"),
+        ("unbound-in-nested-object", "CREATE CONCEPT ?a { TYPE \"T\" SET ATTRIBUTES { refs: { deep: { r: ?ghost } } } }"),
+        ("unbound-in-facet", "CREATE CONCEPT ?a { TYPE \"T\" SET FACET \"F\" { r: ?ghost } }"),
+        ("unbound-update-target", "UPDATE ?ghost SET ATTRIBUTES { a: 1 }"),
+        ("unbound-update-target-other-where", "UPDATE ?ghost SET ATTRIBUTES { a: 1 } WHERE { ?x {type: \"T\"} }"),
+        ("unbound-archive-target", "ARCHIVE ?ghost"),
+        ("unbound-purge-target", "PURGE ?ghost CONFIRM \"PURGE\""),
+        ("unbound-retract-target", "RETRACT ASSERTION ?ghost"),
+        ("unbound-supersede-by", "SUPERSEDE ASSERTION :old BY ?ghost"),
+        ("unbound-supersede-target", "SUPERSEDE ASSERTION ?ghost BY :new"),
+        ("unbound-correct-by", "CORRECT EVIDENCE :old BY ?ghost"),
+        ("unbound-transition-target", "TRANSITION ACTIVITY ?ghost TO \"completed\""),
+        ("unbound-transition-edge", "TRANSITION ACTIVITY :a TO \"completed\" SET STRUCTURAL { (\"outputs\", ?ghost) }"),
+        ("unbound-retention-target", "SET RETENTION ?ghost { retention_class: \"standard\" }"),
+        ("unbound-merge-source", "MERGE CONCEPT ?ghost INTO :b"),
+        ("unbound-merge-into", "MERGE CONCEPT :a INTO ?ghost"),
+        ("unbound-unset-structural", "UPDATE :c UNSET STRUCTURAL { (\"has_step\", ?ghost) }"),
+        ("unbound-upsert-removal", "UPSERT CONCEPT ?c { MATCH {key: \"k\"} UNSET STRUCTURAL { (\"has_step\", ?ghost) } }"),
+        ("unbound-retention-value", "SET RETENTION :x { successor: ?ghost }"),
+        ("unbound-ensure-subject", "ENSURE PROPOSITION (?ghost, \"p\", :b)"),
+        ("unbound-ensure-object", "ENSURE PROPOSITION ?p (:a, \"p\", ?ghost)"),
+        ("unbound-assert-subject", "ASSERT (?ghost, \"p\", :b) { by: :me, mode: \"stated\" }"),
+        ("unbound-assert-by", "ASSERT (:a, \"p\", :b) { by: ?ghost, mode: \"stated\" }"),
+        ("unbound-assert-evidence", "ASSERT (:a, \"p\", :b) { by: :me, mode: \"stated\", evidence: [:e, ?ghost] }"),
+        ("unbound-assert-superseding", "ASSERT (:a, \"p\", :b) { by: :me, mode: \"stated\" } SUPERSEDING ?ghost"),
+        ("bound-by-other-clause-where", "UPDATE ?t SET ATTRIBUTES { a: 1 } WHERE { ?t {type: \"T\"} } ARCHIVE ?t"),
+        ("self-reference", "CREATE CONCEPT ?a { TYPE \"T\" SET STRUCTURAL { (\"about\", ?a) } }"),
+        ("ensure-endpoint-declared", "CREATE CONCEPT ?a { TYPE \"T\" } ENSURE PROPOSITION (?a, \"p\", :b)"),
+    ] {
+        cells.push(Cell { family: "plan", block: "handles", kind: "-", name: "-", spelling: sp, wrap: "in-mutate", text: format!("MUTATE {{ {plan} }}") });
+        if !plan.contains("} CREATE") && !plan.contains("} ASSERT") && !plan.contains("} ENSURE") && !plan.contains("} ARCHIVE") && !plan.contains(") CREATE") {
+            cells.push(Cell { family: "plan", block: "handles", kind: "-", name: "-", spelling: sp, wrap: "standalone", text: plan.to_string() });
+        }
+    }
+    cells
+}
+
+// ---------------------------------------------------------------------------------------------
+// oracle on an accepted tree
+
+/// Violations found inside the parallel sections are parked here and raised afterwards: the
+/// sections must run to the end (the matrix is only exhaustive if no cell is skipped), whereas
+/// `Run::parallel` stops a section after a handful of violations.
+static PENDING: std::sync::Mutex<BTreeMap<String, Value>> = std::sync::Mutex::new(BTreeMap::new());
+
+thread_local! {
+    /// (section, case) the current thread is working on - goes into the witness for `--replay`
+    static CURRENT: std::cell::Cell<(&'static str, u64)> = const { std::cell::Cell::new(("", 0)) };
+}
+
+/// Witness preference: accepted by the text parser before injected trees, then the shortest text.
+fn witness_rank(detail: &Value) -> (bool, usize) {
+    let case = detail.get("witness").unwrap_or(detail);
+    let text = case.get("text").and_then(|t| t.as_str());
+    match text {
+        Some(t) => (false, t.len()),
+        None => (true, detail.to_string().len()),
+    }
+}
+
+fn park(signature: String, detail: Value, st: &mut Stats) {
+    st.count(&format!("violating_cases:{signature}"));
+    st.count("violating_cases");
+    let mut detail = detail;
+    let (section, case) = CURRENT.with(|c| c.get());
+    if let Value::Object(m) = &mut detail {
+        if !section.is_empty() {
+            m.insert("section".into(), json!(section));
+            m.insert("case".into(), json!(case));
+        }
+    }
+    let mut p = PENDING.lock().unwrap();
+    match p.get(&signature) {
+        Some(old) if witness_rank(old) <= witness_rank(&detail) => {}
+        _ => {
+            p.insert(signature, detail);
+        }
+    }
+}
+
+fn raise_parked(run: &mut Run) {
+    let p = std::mem::take(&mut *PENDING.lock().unwrap());
+    for (sig, detail) in p {
+        let n = run.stats.get(&format!("violating_cases:{sig}"));
+        let mut d = detail;
+        if let Value::Object(m) = &mut d {
+            m.insert("cases_with_this_signature".into(), json!(n));
+        }
+        run.stats.violations.push(vcore::run::Violation { signature: sig, detail: d });
+    }
+}
+
+fn report(findings: &[Finding], origin: &str, detail: Value, st: &mut Stats) {
+    for f in findings {
+        park(
+            format!("C16/{}/{}", f.rule, f.at),
+            json!({"rule": f.rule, "at": f.at, "what": f.what, "accepted_by": origin, "witness": detail}),
+            st,
+        );
+    }
+}
+
+fn note_measured(m: &Measured, st: &mut Stats) {
+    for (k, v) in &m.counts {
+        st.add(&format!("measured:{k}"), *v);
+    }
+}
+
+// ---------------------------------------------------------------------------------------------
+// JSON-level injection
+
+/// Collects JSON pointers of interesting sites.
+fn pointers(v: &Value, path: String, out: &mut Vec<(String, &'static str)>) {
+    match v {
+        Value::Object(m) => {
+            for (k, x) in m {
+                let p = format!("{path}/{}", k.replace('~', "~0").replace('/', "~1"));
+                match k.as_str() {
+                    "set_fields" | "set_attributes" | "SetFields" | "SetAttributes" if x.is_array() => out.push((p.clone(), "assignments")),
+                    "values" if x.is_array() => out.push((p.clone(), "assignments")),
+                    "unset_attributes" | "UnsetAttributes" | "fields" if x.is_array() => out.push((p.clone(), "names")),
+                    "where_clauses" if x.is_array() => out.push((p.clone(), "where")),
+                    "Not" | "Optional" | "Union" if x.is_array() => out.push((p.clone(), "where")),
+                    "handle" if x.is_string() => out.push((p.clone(), "handle")),
+                    "confirm" => out.push((p.clone(), "confirm")),
+                    "match" => out.push((p.clone(), "match")),
+                    "Handle" if x.is_string() => out.push((p.clone(), "handle-ref")),
+                    "clauses" if x.is_array() => out.push((p.clone(), "clauses")),
+                    _ => {}
+                }
+                pointers(x, p, out);
+            }
+        }
+        Value::Array(a) => {
+            for (i, x) in a.iter().enumerate() {
+                pointers(x, format!("{path}/{i}"), out);
+            }
+        }
+        _ => {}
+    }
+}
+
+const TYPED_KINDS: &[&str] = &["Concept", "Assertion", "Evidence", "Activity"];
+
+/// All single-site JSON mutants of a tree: (operator, mutated tree).
+fn injections(tree: &Value) -> Vec<(&'static str, Value)> {
+    let mut sites = vec![];
+    pointers(tree, String::new(), &mut sites);
+    let mut out: Vec<(&'static str, Value)> = vec![];
+    let mut with = |op: &'static str, ptr: &str, f: &dyn Fn(&mut Value)| {
+        let mut t = tree.clone();
+        if let Some(x) = t.pointer_mut(ptr) {
+            f(x);
+            if &t != tree {
+                out.push((op, t));
+            }
+        }
+    };
+    for (ptr, what) in &sites {
+        match *what {
+            "assignments" => {
+                let n = tree.pointer(ptr).and_then(|a| a.as_array()).map(|a| a.len()).unwrap_or(0);
+                for i in [0, n.saturating_sub(1)].into_iter().collect::<BTreeSet<usize>>() {
+                    if i >= n {
+                        continue;
+                    }
+                    for name in ENGINE_OWNED {
+                        with("rename-key-to-engine-owned", ptr, &|a| a[i][0] = json!(name));
+                    }
+                    for name in ["confidence", "payload", "subject", "evidence"] {
+                        with("rename-key-to-payload-name", ptr, &|a| a[i][0] = json!(name));
+                    }
+                }
+                for name in ENGINE_OWNED {
+                    with("append-engine-owned-key", ptr, &|a| {
+                        a.as_array_mut().unwrap().push(json!([name, {"Value": {"Number": 1}}]));
+                    });
+                }
+                with("append-unbound-handle-value", ptr, &|a| {
+                    a.as_array_mut().unwrap().push(json!(["zz_ref", {"Handle": "ghost"}]));
+                });
+                with("append-nested-unbound-handle", ptr, &|a| {
+                    a.as_array_mut().unwrap().push(json!(["zz_ref", {"Array": [{"Object": [["r", {"Handle": "ghost"}]]}]}]));
+                });
+                if n > 0 {
+                    with("duplicate-assignment-key", ptr, &|a| {
+                        let first = a[0].clone();
+                        a.as_array_mut().unwrap().push(first);
+                    });
+                }
+            }
+            "names" => {
+                for name in ENGINE_OWNED {
+                    with("unset-engine-owned-name", ptr, &|a| a.as_array_mut().unwrap().push(json!(name)));
+                    with("rename-unset-to-engine-owned", ptr, &|a| {
+                        if let Some(x) = a.as_array_mut().unwrap().first_mut() {
+                            *x = json!(name);
+                        }
+                    });
+                }
+            }
+            "where" => {
+                let n = tree.pointer(ptr).and_then(|a| a.as_array()).map(|a| a.len()).unwrap_or(0);
+                with("add-belief-selector", ptr, &|a| {
+                    a.as_array_mut().unwrap().push(json!({"Belief": {"variable": "zb", "target": {"Id": {"Param": "pid"}}}}));
+                });
+                with("add-belief-slot-selector", ptr, &|a| {
+                    a.as_array_mut().unwrap().push(json!({"BeliefSlot": {"variable": "zs", "subject": {"Param": "s"}, "predicate": {"Literal": "p"}}}));
+                });
+                with("add-belief-inside-optional", ptr, &|a| {
+                    a.as_array_mut().unwrap().push(json!({"Optional": [{"Belief": {"variable": "zb", "target": {"Proposition": "zp"}}}]}));
+                });
+                for i in 0..n.min(4) {
+                    let clause = tree.pointer(&format!("{ptr}/{i}")).cloned().unwrap_or(Value::Null);
+                    let Some((k, body)) = clause.as_object().and_then(|m| m.iter().next()).map(|(k, b)| (k.clone(), b.clone())) else { continue };
+                    if TYPED_KINDS.contains(&k.as_str()) {
+                        let var = body.get("variable").cloned().unwrap_or(json!("t"));
+                        with("swap-pattern-to-belief", ptr, &|a| {
+                            a[i] = json!({"Belief": {"variable": var, "target": {"Id": {"Param": "pid"}}}});
+                        });
+                        for to in TYPED_KINDS {
+                            if *to != k {
+                                with("change-target-kind", ptr, &|a| a[i] = json!({*to: body.clone()}));
+                            }
+                        }
+                        with("change-target-kind", ptr, &|a| {
+                            a[i] = json!({"Proposition": {"variable": var, "matcher": {"Id": {"Param": "pid"}}}});
+                        });
+                        for blockk in ["Union", "Optional", "Not"] {
+                            with("move-binding-into-block", ptr, &|a| a[i] = json!({blockk: [clause.clone()]}));
+                        }
+                        // keep the pattern, add a second binding of another kind in a UNION branch
+                        for to in ["Assertion", "Evidence"] {
+                            with("add-union-binding-of-record-kind", ptr, &|a| {
+                                a.as_array_mut().unwrap().push(json!({"Union": [{to: {"variable": var, "matcher": {}}}]}));
+                            });
+                        }
+                    }
+                    if k == "Proposition" {
+                        let var = body.get("variable").cloned().unwrap_or(Value::Null);
+                        if !var.is_null() {
+                            with("change-target-kind", ptr, &|a| a[i] = json!({"Assertion": {"variable": var, "matcher": {}}}));
+                            with("change-target-kind", ptr, &|a| a[i] = json!({"Concept": {"variable": var, "matcher": {}}}));
+                        }
+                    }
+                    with("drop-where-clause", ptr, &|a| {
+                        a.as_array_mut().unwrap().remove(i);
+                    });
+                }
+                if ptr.ends_with("where_clauses") {
+                    with("drop-where-block", ptr, &|a| *a = Value::Null);
+                    with("empty-where-block", ptr, &|a| *a = json!([]));
+                }
+            }
+            "handle" => {
+                with("rename-declared-handle", ptr, &|h| *h = json!("zz_renamed"));
+            }
+            "handle-ref" => {
+                with("rename-handle-reference", ptr, &|h| *h = json!("ghost"));
+            }
+            "confirm" => {
+                for c in [json!(""), json!("purge"), json!("PURGE "), json!("CONFIRM"), Value::Null] {
+                    with("break-purge-confirmation", ptr, &|x| *x = c.clone());
+                }
+            }
+            "match" => {
+                with("drop-upsert-match", ptr, &|m| *m = Value::Null);
+                with("empty-upsert-match", ptr, &|m| *m = json!({}));
+                with("name-only-upsert-match", ptr, &|m| *m = json!({"name": {"Literal": {"String": "N"}}}));
+                with("variable-identity-upsert-match", ptr, &|m| *m = json!({"id": {"Variable": "x"}}));
+                with("array-identity-upsert-match", ptr, &|m| *m = json!({"key": {"Array": [{"Literal": {"String": "k"}}]}}));
+                with("type-only-upsert-match", ptr, &|m| *m = json!({"type": {"Literal": {"String": "T"}}}));
+            }
+            "clauses" => {
+                let n = tree.pointer(ptr).and_then(|a| a.as_array()).map(|a| a.len()).unwrap_or(0);
+                with("empty-plan", ptr, &|a| *a = json!([]));
+                for i in 0..n.min(4) {
+                    with("duplicate-clause", ptr, &|a| {
+                        let c = a[i].clone();
+                        a.as_array_mut().unwrap().push(c);
+                    });
+                    if n > 1 {
+                        with("drop-clause", ptr, &|a| {
+                            a.as_array_mut().unwrap().remove(i);
+                        });
+                    }
+                }
+                // a second clause that claims the first declared handle
+                let first_handle = (0..n).find_map(|i| {
+                    tree.pointer(&format!("{ptr}/{i}"))
+                        .and_then(|c| c.as_object())
+                        .and_then(|m| m.values().next())
+                        .and_then(|b| b.get("handle"))
+                        .and_then(|h| h.as_str())
+                        .map(|s| s.to_string())
+                });
+                if let Some(h) = first_handle {
+                    with("add-clause-claiming-existing-handle", ptr, &|a| {
+                        a.as_array_mut().unwrap().push(json!({"CreateEvidence": {"handle": h, "client_key": null, "set_fields": null, "set_facets": [], "set_structural": null}}));
+                    });
+                    with("add-ensure-claiming-existing-handle", ptr, &|a| {
+                        a.as_array_mut().unwrap().push(json!({"EnsureProposition": {"handle": h, "subject": {"Param": "a"}, "predicate": {"Literal": "p"}, "object": {"Param": "b"}, "expect_version": null}}));
+                    });
+                }
+                with("add-update-with-protected-key", ptr, &|a| {
+                    a.as_array_mut().unwrap().push(json!({"Update": {"target": {"Param": "x"}, "expect_version": null,
+                        "actions": [{"SetFacet": {"facet": {"Name": "F"}, "values": [["governance", {"Value": {"Bool": true}}]]}}], "where_clauses": null, "limit": null}}));
+                });
+                with("add-unconfirmed-purge", ptr, &|a| {
+                    a.as_array_mut().unwrap().push(json!({"Purge": {"target": {"Param": "x"}, "where_clauses": null, "limit": null, "reference_policy": null, "confirm": "yes"}}));
+                });
+                with("add-transition-with-protected-key", ptr, &|a| {
+                    a.as_array_mut().unwrap().push(json!({"TransitionActivity": {"target": {"Param": "x"}, "to": {"Literal": {"String": "completed"}},
+                        "set_fields": [["_system", {"Value": "Null"}]], "set_structural": null, "expect_state": null}}));
+                });
+                with("add-retention-with-protected-key", ptr, &|a| {
+                    a.as_array_mut().unwrap().push(json!({"SetRetention": {"target": {"Param": "x"}, "values": [["space_seq", {"Value": {"Number": 1}}]],
+                        "where_clauses": null, "limit": null, "expect_version": null}}));
+                });
+                with("add-archive-of-unbound-handle", ptr, &|a| {
+                    a.as_array_mut().unwrap().push(json!({"Archive": {"target": {"Handle": "ghost"}, "where_clauses": null, "limit": null, "expect_state": null}}));
+                });
+                with("add-ensure-with-unbound-endpoint", ptr, &|a| {
+                    a.as_array_mut().unwrap().push(json!({"EnsureProposition": {"handle": null, "subject": {"Variable": "ghost"}, "predicate": {"Literal": "p"}, "object": {"Param": "b"}, "expect_version": null}}));
+                });
+            }
+            _ => {}
+        }
+    }
+    out
+}
+
+/// Feeds every JSON mutant of an accepted tree to validate_command.
+fn inject(tree: &Command, origin_text: &str, st: &mut Stats) {
+    let Ok(v) = serde_json::to_value(tree) else {
+        st.inconclusive("accepted tree does not serialise");
+        return;
+    };
+    for (op, mutant) in injections(&v) {
+        st.count("json_injected_trees");
+        st.count(&format!("inject:{op}"));
+        let Ok(cmd) = serde_json::from_value::<Command>(mutant.clone()) else {
+            st.count("json_injected_undecodable");
+            st.count(&format!("inject_undecodable:{op}"));
+            continue;
+        };
+        st.eval();
+        match validate_command(&cmd) {
+            Err(_) => {
+                st.count("json_injected_refused");
+                st.count(&format!("inject_refused:{op}"));
+            }
+            Ok(()) => {
+                st.count("json_injected_accepted");
+                st.count(&format!("inject_accepted:{op}"));
+                st.set("distinct_injected_trees_accepted", fnv_str(&mutant.to_string()));
+                let mut m = Measured::default();
+                let f = walker::walk(&cmd, &mut m);
+                note_measured(&m, st);
+                st.count("oracle_walker_on_validated_tree");
+                report(&f, "validate_command", json!({"operator": op, "derived_from_text": origin_text, "tree": mutant}), st);
+            }
+        }
+    }
+}
+
+fn check_text(text: &str, label: Value, st: &mut Stats) -> Option<Command> {
+    st.eval();
+    match parse_kip(text) {
+        Err(_) => None,
+        Ok(cmd) => {
+            // the specific entry point must agree (same guards on both text paths)
+            if let Command::Kml(s) = &cmd {
+                if parse_kml(text).ok().as_ref() != Some(s) {
+                    park("C16/parse_kml-disagrees-with-parse_kip".into(), json!({"text": text}), st);
+                }
+            }
+            let mut m = Measured::default();
+            let f = walker::walk(&cmd, &mut m);
+            note_measured(&m, st);
+            st.count("oracle_walker_on_parsed_tree");
+            report(&f, "parser", json!({"text": text, "cell": label}), st);
+            Some(cmd)
+        }
+    }
+}
+
+// ---------------------------------------------------------------------------------------------
+// matrix section
+
+const CHUNK: usize = 256;
+
+fn matrix_case(cells: &[Cell], case: u64, st: &mut Stats) {
+    CURRENT.with(|c| c.set(("matrix", case)));
+    let from = case as usize * CHUNK;
+    let to = (from + CHUNK).min(cells.len());
+    let mut seen: BTreeSet<u64> = BTreeSet::new();
+    for c in &cells[from..to] {
+        st.count("matrix_cells");
+        st.count(&format!("cells:{}", c.family));
+        let label = json!({"family": c.family, "block": c.block, "target_kind": c.kind, "name": c.name, "spelling": c.spelling, "wrap": c.wrap});
+        let exact_engine_owned = ENGINE_OWNED.contains(&c.name)
+            && matches!(c.spelling, "bare-first" | "bare-middle" | "bare-last" | "bare-trailing-comma" | "bare-compact" | "quoted" | "quoted-last" | "quoted-unicode-escape" | "whitespace-and-comments" | "value-param" | "value-expression" | "value-object" | "value-null")
+            && !matches!(c.block, "SET STRUCTURAL options" | "MATCH" | "members");
+        if exact_engine_owned {
+            st.count("cells_writing_an_engine_owned_name_exactly");
+        }
+        match check_text(&c.text, label.clone(), st) {
+            None => {
+                st.count("matrix_refused");
+                st.count(&format!("refused:{}/{}", c.family, c.block));
+                if exact_engine_owned {
+                    st.count("engine_owned_exact_spelling_refused");
+                }
+            }
+            Some(cmd) => {
+                st.count("matrix_accepted");
+                st.count(&format!("accepted:{}/{}", c.family, c.block));
+                if ENGINE_OWNED.contains(&c.name) {
+                    st.count(&format!("accepted_spelling_of_engine_owned_name:{}", c.spelling));
+                }
+                let h = vcore::hash_debug(&cmd);
+                st.set("distinct_matrix_trees_accepted", h);
+                st.distinct(h);
+                // JSON injection is about structure (family x block x kind x wrap), not about the
+                // spelling of one key: one representative per structure
+                let representative = matches!(c.name, "-" | "name" | "confidence") && matches!(c.spelling, "-" | "bare-first" | "bare-middle" | "tuple" | "confirm-exact" | "key-literal" | "id-param" | "type-and-key")
+                    || c.family == "plan";
+                if representative && seen.insert(h) {
+                    inject(&cmd, &c.text, st);
+                }
+                if c.wrap == "standalone" && c.family == "UPDATE" && c.kind.starts_with("concept-then-union") {
+                    st.sample(|| json!({"kind": "accepted matrix cell", "cell": label, "text": c.text}));
+                }
+            }
+        }
+    }
+}
+
+// ---------------------------------------------------------------------------------------------
+// ASSERT desugaring
+
+struct AssertCase {
+    handle: Option<String>,
+    tuple: (String, String, String),
+    /// members as written (name, value text), in source order
+    members: Vec<(String, String)>,
+    superseding: Option<String>,
+    /// handles the surrounding plan declares (so that `?h` values are legal)
+    declares: Vec<String>,
+    /// position of the ASSERT among the plan's source statements
+    seq: usize,
+    in_mutate: bool,
+}
+
+impl AssertCase {
+    fn text(&self) -> String {
+        let mut s = String::new();
+        let stmt = format!(
+            "ASSERT {}({}, {}, {}) {{ {} }}{}",
+            self.handle.as_ref().map(|h| format!("?{h} ")).unwrap_or_default(),
+            self.tuple.0,
+            self.tuple.1,
+            self.tuple.2,
+            self.members.iter().map(|(k, v)| format!("{k}: {v}")).collect::<Vec<_>>().join(", "),
+            self.superseding.as_ref().map(|t| format!(" SUPERSEDING {t}")).unwrap_or_default()
+        );
+        if self.in_mutate {
+            s.push_str("MUTATE {\n");
+            for d in &self.declares {
+                s.push_str(&format!("  CREATE EVIDENCE ?{d} {{ }}\n"));
+            }
+            s.push_str("  ");
+            s.push_str(&stmt);
+            s.push_str("\n}");
+        } else {
+            s = stmt;
+        }
+        s
+    }
+}
+
+/// The AST of one value / term, obtained by parsing it in a neutral context (the value grammar is
+/// not what this oracle is about; the shape of the expansion is).
+fn reference_value(text: &str, declares: &[String]) -> Option<MutationValue> {
+    let decl: String = declares.iter().map(|d| format!("CREATE EVIDENCE ?{d} {{ }} ")).collect();
+    let probe = format!("MUTATE {{ {decl} UPDATE :probe SET ATTRIBUTES {{ probe: {text} }} }}");
+    let s = parse_kml(&probe).ok()?;
+    match s.clauses.last()? {
+        MutationClause::Update(u) => match u.actions.first()? {
+            UpdateAction::SetAttributes(a) => a.first().map(|(_, v)| v.clone()),
+            _ => None,
+        },
+        _ => None,
+    }
+}
+
+fn reference_ensure(tuple: &(String, String, String), declares: &[String]) -> Option<EnsureProposition> {
+    let decl: String = declares.iter().map(|d| format!("CREATE EVIDENCE ?{d} {{ }} ")).collect();
+    let probe = format!("MUTATE {{ {decl} ENSURE PROPOSITION ({}, {}, {}) }}", tuple.0, tuple.1, tuple.2);
+    let s = parse_kml(&probe).ok()?;
+    match s.clauses.last()? {
+        MutationClause::EnsureProposition(e) => Some(e.clone()),
+        _ => None,
+    }
+}
+
+fn reference_target(text: &str) -> Option<ElementRef> {
+    let s = parse_kml(&format!("ARCHIVE {text}")).ok()?;
+    match s.clauses.first()? {
+        MutationClause::Archive(a) => Some(a.target.clone()),
+        _ => None,
+    }
+}
+
+fn scalar_of(v: &MutationValue) -> Option<Scalar> {
+    match v {
+        MutationValue::Param(p) => Some(Scalar::Param(p.clone())),
+        MutationValue::Value(k @ (KipValue::String(_) | KipValue::Number(_) | KipValue::Bool(_) | KipValue::Null)) => Some(Scalar::Literal(k.clone())),
+        _ => None,
+    }
+}
+
+fn artifacts(v: &MutationValue) -> Vec<MutationValue> {
+    match v {
+        MutationValue::Array(items) => items.iter().cloned().map(MutationValue::from).collect(),
+        MutationValue::Value(KipValue::Array(items)) => items.iter().cloned().map(MutationValue::Value).collect(),
+        other => vec![other.clone()],
+    }
+}
+
+/// The expansion Spec 55.1 defines, built by the harness. `None` = the statement must be refused.
+fn expected_expansion(c: &AssertCase) -> Option<Vec<MutationClause>> {
+    let mut seen = BTreeSet::new();
+    for (k, _) in &c.members {
+        if !["by", "mode", "stance", "confidence", "at", "valid", "evidence", "key"].contains(&k.as_str()) || !seen.insert(k.clone()) {
+            return None;
+        }
+    }
+    let get = |name: &str| c.members.iter().find(|(k, _)| k == name).map(|(_, v)| v.clone());
+    let by = get("by")?;
+    let mode = get("mode")?;
+    let ensure = reference_ensure(&c.tuple, &c.declares)?;
+    let a_handle = c.handle.clone().unwrap_or_else(|| format!("#assert{}", c.seq));
+    let p_handle = format!("{a_handle}#proposition");
+    let val = |t: &str| reference_value(t, &c.declares);
+    let mut fields: BTreeMap<String, MutationValue> = BTreeMap::new();
+    fields.insert("proposition".into(), MutationValue::Handle(p_handle.clone()));
+    fields.insert("asserted_by".into(), val(&by)?);
+    fields.insert("mode".into(), val(&mode)?);
+    // documented default, materialised by the parser (pinned on the unchanged tree)
+    fields.insert("stance".into(), match get("stance") {
+        Some(s) => val(&s)?,
+        None => MutationValue::Value(KipValue::String("support".into())),
+    });
+    for (member, field) in [("confidence", "confidence"), ("at", "asserted_at"), ("valid", "valid_time")] {
+        if let Some(t) = get(member) {
+            fields.insert(field.into(), val(&t)?);
+        }
+    }
+    let client_key = match get("key") {
+        Some(t) => Some(scalar_of(&val(&t)?)?),
+        None => None,
+    };
+    let edges: Vec<anda_kip::StructuralEdge> = match get("evidence") {
+        Some(t) => artifacts(&val(&t)?)
+            .into_iter()
+            .map(|value| anda_kip::StructuralEdge {
+                field: SymbolRef::Name("evidence".into()),
+                value,
+                options: Some([("role".to_string(), BoundValue::Value(KipValue::String("support".into())))].into_iter().collect()),
+            })
+            .collect(),
+        None => vec![],
+    };
+    // set_fields order is not part of the definition: canonical (sorted) order on both sides
+    let set_fields: Assignments = fields.into_iter().collect();
+    let mut out = vec![
+        MutationClause::EnsureProposition(EnsureProposition {
+            handle: Some(p_handle),
+            subject: ensure.subject,
+            predicate: ensure.predicate,
+            object: ensure.object,
+            expect_version: None,
+        }),
+        MutationClause::CreateAssertion(anda_kip::RecordCreate {
+            handle: a_handle.clone(),
+            client_key,
+            set_fields: Some(set_fields),
+            set_facets: vec![],
+            set_structural: if edges.is_empty() { None } else { Some(edges) },
+        }),
+    ];
+    if let Some(t) = &c.superseding {
+        out.push(MutationClause::SupersedeAssertion(anda_kip::SupersedeAssertion {
+            target: reference_target(t)?,
+            by: ElementRef::Handle(a_handle),
+            expect_state: None,
+        }));
+    }
+    Some(out)
+}
+
+fn canonical(mut clauses: Vec<MutationClause>) -> Vec<MutationClause> {
+    for c in clauses.iter_mut() {
+        if let MutationClause::CreateAssertion(r) = c {
+            if let Some(f) = r.set_fields.as_mut() {
+                f.sort_by(|a, b| a.0.cmp(&b.0));
+            }
+        }
+    }
+    clauses
+}
+
+fn assert_check(c: &AssertCase, st: &mut Stats) {
+    let text = c.text();
+    st.count("assert_statements");
+    let expected = expected_expansion(c);
+    let got = parse_kip(&text);
+    st.eval();
+    let n_decl = if c.in_mutate { c.declares.len() } else { 0 };
+    match (&expected, &got) {
+        (None, Err(_)) => {
+            st.count("assert_refused_as_expected");
+            let has = |n: &str| c.members.iter().any(|(k, _)| k == n);
+            if !has("by") {
+                st.count("assert_refused_missing_by");
+            }
+            if !has("mode") {
+                st.count("assert_refused_missing_mode");
+            }
+        }
+        (None, Ok(cmd)) => {
+            let has = |n: &str| c.members.iter().any(|(k, _)| k == n);
+            let why = if !has("by") {
+                "missing-by"
+            } else if !has("mode") {
+                "missing-mode"
+            } else {
+                "ill-formed-members"
+            };
+            park(
+                format!("C16/assert/accepted-although-{why}"),
+                json!({"text": text, "tree": serde_json::to_value(cmd).unwrap_or(Value::Null)}),
+                st,
+            );
+        }
+        (Some(_), Err(e)) => {
+            // well-formed per the definition but refused: only the handle rules may say so
+            let msg = e.message.clone();
+            if msg.contains("not bound") || msg.contains("claimed by two") {
+                st.count("assert_refused_by_plan_rules");
+            } else {
+                park("C16/assert/well-formed-refused".into(), json!({"text": text, "error": msg}), st);
+            }
+        }
+        (Some(exp), Ok(Command::Kml(KmlStatement { clauses, explicit_transaction }))) => {
+            st.count("assert_expansions_compared");
+            if c.superseding.is_some() {
+                st.count("assert_expansions_with_supersede");
+            }
+            if *explicit_transaction != c.in_mutate {
+                park("C16/assert/transaction-flag".into(), json!({"text": text}), st);
+            }
+            let tail: Vec<MutationClause> = clauses.iter().skip(n_decl).cloned().collect();
+            let a = canonical(tail);
+            let b = canonical(exp.clone());
+            if a != b {
+                park(
+                    "C16/assert/expansion-differs-from-definition".into(),
+                    json!({"text": text, "parser": serde_json::to_value(&a).unwrap_or(Value::Null), "definition": serde_json::to_value(&b).unwrap_or(Value::Null)}),
+                    st,
+                );
+            }
+            st.set("distinct_assert_expansions", vcore::hash_debug(&a));
+            st.sample(|| json!({"kind": "ASSERT expansion compared", "text": text}));
+        }
+        (Some(_), Ok(_)) => park("C16/assert/not-a-mutation".into(), json!({"text": text}), st),
+    }
+}
+
+fn assert_case(case: u64, rng: &mut Rng, st: &mut Stats) {
+    CURRENT.with(|c| c.set(("assert", case)));
+    let declares: Vec<String> = if rng.bool() { vec!["e1".into(), "e2".into()] } else { vec![] };
+    let in_mutate = !declares.is_empty() || rng.bool();
+    let refs = |rng: &mut Rng, declares: &[String]| -> String {
+        if !declares.is_empty() && rng.chance(1, 3) {
+            format!("?{}", rng.pick(declares))
+        } else {
+            (*rng.pick(&[":a", ":alice", ":b", ":msg"])).to_string()
+        }
+    };
+    let subject = refs(rng, &declares);
+    let object = match rng.below(5) {
+        0 => "\"+01:00\"".to_string(),
+        1 => "42".to_string(),
+        2 => "true".to_string(),
+        3 => "null".to_string(),
+        _ => refs(rng, &declares),
+    };
+    let pred = (*rng.pick(&["\"prefers\"", "\"timezone\"", ":pred"])).to_string();
+    let mut members: Vec<(String, String)> = vec![];
+    // required members are sometimes left out on purpose
+    if !rng.chance(1, 8) {
+        members.push(("by".into(), refs(rng, &declares)));
+    }
+    if !rng.chance(1, 8) {
+        members.push(("mode".into(), (*rng.pick(&["\"stated\"", "\"observed\"", "\"inferred\"", ":mode", "\"imported\""])).to_string()));
+    }
+    if rng.chance(1, 3) {
+        members.push(("stance".into(), (*rng.pick(&["\"support\"", "\"reject\"", "\"uncertain\"", ":stance"])).to_string()));
+    }
+    if rng.chance(1, 3) {
+        members.push(("confidence".into(), (*rng.pick(&["0.95", "1", "0", ":c", "0.5"])).to_string()));
+    }
+    if rng.chance(1, 4) {
+        members.push(("at".into(), (*rng.pick(&[":time", "\"2026-08-16T01:00:00Z\""])).to_string()));
+    }
+    if rng.chance(1, 4) {
+        members.push(("valid".into(), (*rng.pick(&["{from: :t1, until: :t2}", "{from: \"2026-01-01\"}", "{from: :t1, until: null}", ":interval"])).to_string()));
+    }
+    if rng.chance(1, 2) {
+        let e = match rng.below(8) {
+            0 => "[]".to_string(),
+            1 => "[:e1, :e2]".to_string(),
+            2 => "[\"E-1\", \"E-2\", \"E-3\"]".to_string(),
+            3 => "\"E-1\"".to_string(),
+            4 if !declares.is_empty() => format!("?{}", declares[0]),
+            5 if !declares.is_empty() => format!("[?{}, :e9, \"E-4\"]", declares[1]),
+            6 => "[[:e1]]".to_string(),
+            _ => ":msg".to_string(),
+        };
+        members.push(("evidence".into(), e));
+    }
+    if rng.chance(1, 3) {
+        members.push(("key".into(), (*rng.pick(&[":client_key", "\"assert:1\"", "17", "true", "null", "[1]", "{a: 1}"])).to_string()));
+    }
+    if rng.chance(1, 12) {
+        members.push(((*rng.pick(&["oops", "asserted_by", "role", "_system", "By", "evidence_refs", "by"])).to_string(), ":x".into()));
+    }
+    rng.shuffle(&mut members);
+    let c = AssertCase {
+        handle: if rng.bool() { Some((*rng.pick(&["a", "claim", "h9"])).to_string()) } else { None },
+        tuple: (subject, pred, object),
+        members,
+        superseding: if rng.chance(1, 3) { Some((*rng.pick(&[":old", "\"A-17\""])).to_string()) } else { None },
+        seq: if in_mutate { declares.len() } else { 0 },
+        declares,
+        in_mutate,
+    };
+    assert_check(&c, st);
+}
+
+// ---------------------------------------------------------------------------------------------
+// generated plans
+
+fn plan_case(case: u64, rng: &mut Rng, st: &mut Stats) {
+    CURRENT.with(|c| c.set(("plans", case)));
+    let text = {
+        let mut g = Gen::new(rng);
+        g.fuel = 600;
+        g.kml();
+        generate::render(&g.t)
+    };
+    st.count("generated_plans");
+    if let Some(cmd) = check_text(&text, json!({"generated": true}), st) {
+        st.count("generated_plans_accepted");
+        if let Command::Kml(s) = &cmd {
+            if s.clauses.len() > 1 {
+                st.count("generated_multi_clause_plans_accepted");
+            }
+            let declared = s.clauses.iter().filter(|c| c.handle().is_some()).count();
+            st.max("max_handles_declared_in_a_generated_plan", declared as u64);
+        }
+        st.set("distinct_generated_plans_accepted", vcore::hash_debug(&cmd));
+        inject(&cmd, &text, st);
+    }
+    // plans broken at the text level: a handle reference renamed / a declaration duplicated
+    let broken = match rng.below(3) {
+        0 => text.replacen("?h0", "?ghost", 1),
+        1 => text.replacen("?h1 ", "?h0 ", 1),
+        _ => text.replacen("CONFIRM \"PURGE\"", "CONFIRM \"Purge\"", 1),
+    };
+    if broken != text {
+        st.count("generated_plans_broken_in_text");
+        if check_text(&broken, json!({"generated": true, "broken": true}), st).is_some() {
+            st.count("generated_broken_plans_still_accepted");
+        }
+    }
+}
+
+// ---------------------------------------------------------------------------------------------
+// sanity set: every walker rule must be able to fire (and the validator should refuse the tree)
+
+fn sanity(st: &mut Stats) {
+    let update = |where_clauses: Value, actions: Value| {
+        json!({"Kml": {"explicit_transaction": false, "clauses": [{"Update": {"target": {"Handle": "t"}, "expect_version": null, "actions": actions, "where_clauses": where_clauses, "limit": null}}]}})
+    };
+    let concept = |assign: &str| {
+        let mut c = json!({"handle": "c", "type": {"Name": "T"}, "client_key": null, "name": null, "set_fields": null, "set_attributes": null, "set_facets": [], "set_structural": null});
+        c[assign] = json!([["_system", {"Value": {"Number": 1}}]]);
+        json!({"Kml": {"explicit_transaction": false, "clauses": [{"CreateConcept": c}]}})
+    };
+    let one = |clause: Value| json!({"Kml": {"explicit_transaction": true, "clauses": [clause]}});
+    let assertion_where = json!([{"Assertion": {"variable": "t", "matcher": {}}}]);
+    let bad: Vec<(&str, &str, Value)> = vec![
+        ("engine-owned-field-assigned", "CreateConcept.SET FIELDS", concept("set_fields")),
+        ("engine-owned-field-assigned", "CreateConcept.SET ATTRIBUTES", concept("set_attributes")),
+        ("engine-owned-field-assigned", "facet", one(json!({"CreateEvidence": {"handle": "e", "client_key": null, "set_fields": null,
+            "set_facets": [{"facet": {"Name": "F"}, "values": [["governance", {"Param": "g"}]]}], "set_structural": null}}))),
+        ("engine-owned-field-assigned", "unset", one(json!({"UpsertConcept": {"handle": "c", "match": {"key": {"Literal": {"String": "k"}}}, "expect_version": null,
+            "set_fields": null, "set_attributes": null, "set_facets": [], "unset_attributes": ["space_id"], "unset_facets": [], "set_structural": null, "unset_structural": null}}))),
+        ("engine-owned-field-assigned", "retention", one(json!({"SetRetention": {"target": {"Param": "x"}, "values": [["space_seq", {"Value": {"Number": 7}}]], "where_clauses": null, "limit": null, "expect_version": null}}))),
+        ("engine-owned-field-assigned", "transition", one(json!({"TransitionActivity": {"target": {"Param": "x"}, "to": {"Literal": {"String": "completed"}}, "set_fields": [["_system", {"Value": "Null"}]], "set_structural": null, "expect_state": null}}))),
+        ("immutable-payload-rewritten", "assertion", update(assertion_where.clone(), json!([{"SetFields": [["confidence", {"Value": {"Number": 0.1}}]]}]))),
+        ("immutable-payload-rewritten", "evidence", update(json!([{"Evidence": {"variable": "t", "matcher": {}}}]), json!([{"SetFields": [["payload", {"Param": "p"}]]}]))),
+        ("immutable-payload-rewritten", "proposition", update(json!([{"Proposition": {"variable": "t", "matcher": {"Id": {"Param": "p"}}}}]), json!([{"SetFields": [["object", {"Param": "p"}]]}]))),
+        ("immutable-payload-rewritten", "union", update(json!([{"Concept": {"variable": "t", "matcher": {}}}, {"Union": [{"Assertion": {"variable": "t", "matcher": {}}}]}]), json!([{"SetFields": [["stance", {"Param": "p"}]]}]))),
+        ("record-topology-mutated", "set", update(assertion_where.clone(), json!([{"SetStructural": [{"field": {"Name": "evidence"}, "value": {"Param": "e"}, "options": null}]}]))),
+        ("record-topology-mutated", "unset", update(json!([{"Activity": {"variable": "t", "matcher": {}}}]), json!([{"UnsetStructural": [{"field": {"Name": "inputs"}, "value": {"Param": "e"}}]}]))),
+        ("belief-as-selector", "update", update(json!([{"Belief": {"variable": "t", "target": {"Id": {"Param": "p"}}}}]), json!([{"SetAttributes": [["a", {"Value": {"Number": 1}}]]}]))),
+        ("belief-as-selector", "archive-nested", one(json!({"Archive": {"target": {"Handle": "t"}, "where_clauses": [{"Concept": {"variable": "t", "matcher": {}}}, {"Not": [{"BeliefSlot": {"variable": "s", "subject": {"Variable": "t"}, "predicate": {"Literal": "p"}}}]}], "limit": null, "expect_state": null}}))),
+        ("belief-as-selector", "export", json!({"Meta": {"ExportCapsule": {"target": {"Handle": "r"}, "where_clauses": [{"Belief": {"variable": "r", "target": {"Proposition": "p"}}}], "options": null, "as_of": null}}})),
+        ("upsert-without-stable-identity", "name-only", one(json!({"UpsertConcept": {"handle": "c", "match": {"name": {"Literal": {"String": "N"}}}, "expect_version": null,
+            "set_fields": null, "set_attributes": null, "set_facets": [], "unset_attributes": null, "unset_facets": [], "set_structural": null, "unset_structural": null}}))),
+        ("upsert-without-stable-identity", "no-match", one(json!({"UpsertConcept": {"handle": "c", "match": null, "expect_version": null,
+            "set_fields": null, "set_attributes": null, "set_facets": [], "unset_attributes": null, "unset_facets": [], "set_structural": null, "unset_structural": null}}))),
+        ("handle-declared-twice", "two-creates", json!({"Kml": {"explicit_transaction": true, "clauses": [
+            {"CreateEvidence": {"handle": "h", "client_key": null, "set_fields": null, "set_facets": [], "set_structural": null}},
+            {"CreateActivity": {"handle": "h", "client_key": null, "set_fields": null, "set_facets": [], "set_structural": null}}]}})),
+        ("handle-never-bound", "archive", one(json!({"Archive": {"target": {"Handle": "ghost"}, "where_clauses": null, "limit": null, "expect_state": null}}))),
+        ("handle-never-bound", "edge", one(json!({"CreateAssertion": {"handle": "a", "client_key": null, "set_fields": null, "set_facets": [],
+            "set_structural": [{"field": {"Name": "evidence"}, "value": {"Handle": "ghost"}, "options": null}]}}))),
+        ("handle-never-bound", "ensure-endpoint", one(json!({"EnsureProposition": {"handle": null, "subject": {"Variable": "ghost"}, "predicate": {"Literal": "p"}, "object": {"Param": "b"}, "expect_version": null}}))),
+        ("purge-unconfirmed", "lower-case", one(json!({"Purge": {"target": {"Param": "x"}, "where_clauses": null, "limit": null, "reference_policy": null, "confirm": "purge"}}))),
+    ];
+    for (rule, label, tree) in bad {
+        st.count("sanity_trees");
+        let Ok(cmd) = serde_json::from_value::<Command>(tree.clone()) else {
+            st.inconclusive(format!("sanity tree {rule}/{label} does not decode into the AST"));
+            continue;
+        };
+        let mut m = Measured::default();
+        let f = walker::walk(&cmd, &mut m);
+        if f.iter().any(|x| x.rule == rule) {
+            st.count(&format!("walker_rule_fired:{rule}"));
+            st.count("sanity_walker_fired");
+        } else {
+            st.inconclusive(format!("walker rule {rule} did not fire on its sanity tree {label}"));
+        }
+        st.eval();
+        match validate_command(&cmd) {
+            Err(_) => st.count("sanity_trees_refused_by_validate_command"),
+            Ok(()) => {
+                st.count("sanity_trees_accepted_by_validate_command");
+                report(&f, "validate_command", json!({"sanity_tree": label, "tree": tree}), st);
+            }
+        }
+    }
+}
+
+// ---------------------------------------------------------------------------------------------
+
 fn main() {
-    println!("INCONCLUSIVE property=C16 monitor not built yet");
-    std::process::exit(2);
+    let mut run = Run::from_args(
+        "C16",
+        "exploration",
+        "finite matrix clause family x target kind x block x field name x spelling enumerated completely (a cell is \
+         non-trivial when the parser accepts it; distinct by tree), JSON-injected single-site mutants of every accepted \
+         tree, generated multi-clause plans, generated ASSERT statements",
+    );
+    run.assume("engine-owned names are exactly _system, governance, space_id, space_seq (Spec 6.2/6.3/2.11/28.1), compared case-sensitively after JSON string decoding: `_System`, ` _system` and `\"_system.version\"` are different field names (the engine compares names byte-wise as well)");
+    run.assume("an engine-owned name used as a key inside a value object, as a structural edge option or as a MATCH member is data, not an assignment: counted (measured:*), not judged");
+    run.assume("statically known kind = the UPDATE target variable is bound by a typed pattern at the top level, in an OPTIONAL block or in a UNION branch (an independent scope whose solutions are added); a NOT block binds nothing; two different required kinds for one variable are unsatisfiable and not judged; direct :id / \"id\" targets are not judged");
+    run.assume("immutable payload names: Proposition subject/predicate/object (12.5); Assertion proposition/asserted_by/stance/mode/confidence/asserted_at/valid_time/evidence (13.7, 13.2); Evidence evidence_class/payload/content_digest/media_type/observed_at (15.5, 15.3); structural mutation through UPDATE is refused for Assertion, Evidence, Proposition and Activity targets (17.5, KIPSyntax 3.5)");
+    run.assume("a ?variable endpoint of ENSURE PROPOSITION / ASSERT names a plan handle (Spec 53.2, the parse_kml doc example, the engine resolves it through the handle table)");
+    run.assume("ASSERT: defaults the parser materialises, pinned on the unchanged tree: stance \"support\" when not written; every evidence citation carries options {role: \"support\"}; the assertion handle is the written one or #assert<position>, the proposition handle <assertion handle>#proposition; an evidence array yields one edge per element, an empty array none; the order of set_fields is not part of the definition");
+    if ENGINE_OWNED.iter().any(|n| !PROTECTED_FIELDS.contains(n)) {
+        run.stats.count("engine_owned_names_missing_from_the_crate_constant");
+    }
+    run.set_extra("crate_PROTECTED_FIELDS", json!(PROTECTED_FIELDS));
+    let t = run.tier;
+
+    if run.wants("sanity") && run.replay.is_none() {
+        let mut st = Stats::default();
+        sanity(&mut st);
+        run.stats.merge(st);
+    }
+    let mut matrix_complete = false;
+    if run.wants("matrix") {
+        let cells = build_matrix();
+        run.set_extra("matrix_cells_total", json!(cells.len()));
+        let n_cases = cells.len().div_ceil(CHUNK) as u64;
+        let ran = run.parallel("matrix", n_cases, 0.95, |case, _rng, st| matrix_case(&cells, case, st));
+        matrix_complete = ran == n_cases && run.stats.get("matrix_cells") == cells.len() as u64;
+        if run.replay.is_none() {
+            run.exhaustive = Some(matrix_complete);
+            if !matrix_complete {
+                run.stats.inconclusive("the matrix was not enumerated completely");
+            }
+        }
+    }
+    if run.wants("assert") {
+        run.parallel("assert", t.pick(30_000, 600_000), 0.5, assert_case);
+    }
+    if run.wants("plans") {
+        run.parallel("plans", t.pick(6_000, 200_000), 0.9, plan_case);
+    }
+
+    raise_parked(&mut run);
+    let acc = run.stats.get("matrix_accepted");
+    let refd = run.stats.get("matrix_refused");
+    run.set_extra("matrix", json!({"cells": run.stats.get("matrix_cells"), "accepted": acc, "refused": refd, "enumerated_completely": matrix_complete}));
+    run.set_extra(
+        "json_injected",
+        json!({"trees": run.stats.get("json_injected_trees"), "accepted": run.stats.get("json_injected_accepted"),
+               "refused": run.stats.get("json_injected_refused"), "undecodable": run.stats.get("json_injected_undecodable")}),
+    );
+    run.floor("matrix_cells", 100_000);
+    run.floor("matrix_accepted", 20_000);
+    run.floor("matrix_refused", 20_000);
+    run.floor("cells_writing_an_engine_owned_name_exactly", 5_000);
+    run.floor("oracle_walker_on_parsed_tree", 30_000);
+    run.floor("oracle_walker_on_validated_tree", 20_000);
+    run.floor("json_injected_trees", 100_000);
+    run.floor("json_injected_refused", 20_000);
+    run.floor("json_injected_accepted", 20_000);
+    for op in [
+        "rename-key-to-engine-owned", "rename-key-to-payload-name", "append-engine-owned-key", "unset-engine-owned-name",
+        "add-belief-selector", "swap-pattern-to-belief", "change-target-kind", "move-binding-into-block", "drop-where-block",
+        "rename-declared-handle", "rename-handle-reference", "break-purge-confirmation", "name-only-upsert-match",
+        "duplicate-clause", "add-clause-claiming-existing-handle", "append-unbound-handle-value",
+    ] {
+        run.floor(&format!("inject:{op}"), 50);
+    }
+    run.floor("assert_statements", t.pick(25_000, 200_000));
+    run.floor("assert_expansions_compared", 8_000);
+    run.floor("assert_expansions_with_supersede", 2_000);
+    run.floor("assert_refused_missing_by", 1_000);
+    run.floor("assert_refused_missing_mode", 1_000);
+    run.floor_set("distinct_assert_expansions", 3_000);
+    run.floor("generated_plans_accepted", 4_000);
+    run.floor("generated_multi_clause_plans_accepted", 1_000);
+    run.floor("sanity_trees", 22);
+    for rule in [
+        "engine-owned-field-assigned", "immutable-payload-rewritten", "record-topology-mutated", "belief-as-selector",
+        "upsert-without-stable-identity", "handle-declared-twice", "handle-never-bound", "purge-unconfirmed",
+    ] {
+        run.floor(&format!("walker_rule_fired:{rule}"), 1);
+    }
+    run.finish();
 }
